@@ -32,6 +32,8 @@ def known_matcher(pid):
         mid_fail = any(p['kind'] == 'err' and 'limit exceeded' in p['why'] for p in pages[first_ok + 1:])
         if inv in ('C02_OfferedRenders', 'C02_Partition', 'C02_NavOffered') and mid_fail and 'render-next-into-oversize-page' in ks:
             return ks['render-next-into-oversize-page']
+        if inv == 'C02_FitsThenShown' and 'render-conservative-capacity' in ks and pages[0]['kind'] == 'err' and 'capacity insufficient for sink field' in pages[0]['why']:
+            return ks['render-conservative-capacity']
         if inv == 'C02_Partition' and 'render-empty-row-dropped' in ks and '' in ev['rows']:
             return ks['render-empty-row-dropped']
         if inv == 'C02_NavOffered' and 'render-empty-row-dropped' in ks and ev['rows'] and ev['rows'][-1] == '':
@@ -134,6 +136,17 @@ def run(pid, tier, mc_invs, mine):
     open(os.path.join(w, 'rt.cfg'), 'w').write(trace_cfg(mine + ['Drift_Algo']))
     kinds = set()
     npages = judge(out, pid, w, tr, 'TLC-enumerated configuration', matcher, kinds, mine)
+    # canonical cases of the known findings that are kept as files
+    for k in core.known_for(pid):
+        if k['canonical_case'].endswith('.json'):
+            case = json.load(open(os.path.join(core.VERIF, k['canonical_case'])))
+            if case.get('kind') != 'render-case':
+                continue
+            kp = os.path.join(d, 'kc-%s.ndjson' % k['id'])
+            open(kp, 'w').write(json.dumps(dict(cfg=case['cfg'], maxidx=case['maxidx'])) + '\n')
+            ktr = os.path.join(d, 'kc-%s-trace.ndjson' % k['id'])
+            core.run_harness(['render-cases', kp, ktr])
+            npages += judge(out, pid, w, ktr, 'canonical case of ' + k['id'], matcher, kinds, mine)
     # ---- C: larger random configurations
     out.stage('C random configurations')
     tr2 = os.path.join(d, 'random.ndjson')
